@@ -19,7 +19,8 @@ purpose is in design.d/C19.md, every construct is run through Python and Lean by
                (every path must end in a `return`, except in functions declared `unit`), `raise Cls("…")` -> `throw`,
                `with <declared context manager>:` (body in place), calls of declared log functions (dropped), calls of
                declared actions, single statements pinned verbatim that stand for an action (`spec.stmts`),
-               `a, b = <opaque>` (names for atoms), locals of one branch (assigned and used inside it only), and four
+               `a, b = <opaque>` (names for atoms), `a, b = <list of strings>` (a `match`, the declared ValueError for
+               another length), locals of one branch (assigned and used inside it only), and four
                shapes of `for`:
                  over a literal list (unrolled) | `if c: return e` (List.find?) |
                  flag with `break` and `else: flag = False` (List.any) | updates of one local (List.foldl)
@@ -27,7 +28,7 @@ purpose is in design.d/C19.md, every construct is run through Python and Lean by
                locals, `d["k"]` (KeyError when missing), `==`, `!=`, `is None`, `is not None`, `< <= > >=` and `+ - *`
                on integers, `max(a, b)`, `min(a, b)`, `len(list)`, `in` / `not in` on literal lists/tuples/sets of
                strings (or a module level constant holding one), on list values and between strings (substring),
-               `s.startswith(p)`, `s.lower()`, `s.split()`, `a + b` on strings, `and`, `or`, `not`, `a if c else b`,
+               `s.startswith(p)`, `s.lower()`, `s.split()`, `s.split("c")`, `s.replace("c", "")`, `a + b` on strings, `and`, `or`, `not`, `a if c else b`,
                `a or b` on lists, truthiness of lists and sets, `[e for x in l if c]`, `any(…)` / `all(…)` over a
                generator, `{*l}` with `-`, `&`, `|` of which only emptiness (`len(S) > 0`, truthiness) is observable
   atoms        expressions the caller gives a meaning to (`spec.atoms`: normalised Python source -> Lean term, type),
@@ -77,7 +78,9 @@ LEAN_DEFAULTS = {"str": '""', "optstr": "none", "bool": "false", "int": "0", "sl
 
 # Lean names of the string primitives (Python semantics on ASCII); the defaults are those of I2N/Model/Rules.lean, which
 # `./check C10` cross-checks against Python on every run (correspondence part (h)); a spec may rename them
-DEFAULT_PRIMS = {"substr": "isSubstr",                 # a in b          (strings)
+DEFAULT_PRIMS = {"split_char": "splitChar",            # s.split("c")     (one character; Lean: splitChar 'c' s)
+                 "remove_char": "pyRemoveChar",        # s.replace("c", "")  — to be defined by the spec's prelude
+                 "substr": "isSubstr",                 # a in b          (strings)
                  "lower": "lower",                     # s.lower()
                  "split_ws": "splitWs",                # s.split()
                  "startswith": "pyStartsWith"}         # s.startswith(p)  — to be defined by the spec's prelude
@@ -194,13 +197,14 @@ class Spec:
     stmts       {python source of ONE statement: Lean action}: a statement pinned verbatim that stands for an action of the
                 function's monad (`self.should_rerun = lambda _: False` -> `set true`); it may contain what is refused
                 elsewhere (attribute stores, lambdas)
+    unpack_error Lean term thrown by `a, b = <list of strings>` when the list has another length (Python's ValueError)
     type_defaults {opaque Lean type: a value of it}: values of these types may be compared with `==` (the type has a lawful
                 `BEq`) and locals of these types may be first assigned inside the branches of an `if`
     """
 
     def __init__(self, lean_name, binders, params, ret, atoms=None, blocks=None, monad="pure", doc="", calls=None,
                  assign_blocks=None, raises=None, ignored_calls=(), transparent_with=(), fields=None, prims=None,
-                 prelude=(), local_types=None, type_defaults=None, stmts=None):
+                 prelude=(), local_types=None, type_defaults=None, stmts=None, unpack_error=None):
         self.lean_name = lean_name
         self.binders = list(binders)
         self.params = dict(params)
@@ -218,6 +222,7 @@ class Spec:
         self.local_types = dict(local_types or {})
         self.type_defaults = dict(type_defaults or {})
         self.stmts = {norm_block(k): v for k, v in (stmts or {}).items()}
+        self.unpack_error = unpack_error
         self.monad = monad
         self.doc = doc
 
@@ -800,6 +805,13 @@ class _Fn:
                     return f"({self.spec.prims['lower']} {recv})", "str"
                 if f.attr == "split" and not node.args:
                     return f"({self.spec.prims['split_ws']} {recv})", "slist"
+                one = [a.value for a in node.args if isinstance(a, ast.Constant) and isinstance(a.value, str)]
+                if f.attr == "split" and len(node.args) == 1 and len(one) == 1 and len(one[0]) == 1 and one[0].isascii() \
+                        and one[0].isprintable() and one[0] not in "'\\":
+                    return f"({self.spec.prims['split_char']} '{one[0]}' {recv})", "slist"
+                if f.attr == "replace" and len(node.args) == 2 and len(one) == 2 and len(one[0]) == 1 and one[1] == "" \
+                        and one[0].isascii() and one[0].isprintable() and one[0] not in "'\\":
+                    return f"({self.spec.prims['remove_char']} '{one[0]}' {recv})", "str"
                 if f.attr == "startswith" and len(node.args) == 1:
                     a, ta = self.expr(node.args[0], eff)
                     if ta != "str":
@@ -910,7 +922,12 @@ class _Fn:
             if isinstance(tgt, ast.Name):
                 return self._assign(tgt.id, s.value, depth, top, where)
             if isinstance(tgt, ast.Tuple) and all(isinstance(e, ast.Name) for e in tgt.elts):
-                return self._unpack([e.id for e in tgt.elts], s.value, top, where)
+                names = [e.id for e in tgt.elts]
+                try:
+                    t, ty = self.expr(s.value)
+                except Unsupported:
+                    return self._unpack(names, s.value, top, where)
+                return self._unpack_list(names, t, ty, depth, top, where)
             if isinstance(tgt, ast.Subscript) and isinstance(tgt.value, ast.Name) and tgt.value.id in self.fresh_dicts \
                     and isinstance(tgt.slice, ast.Constant) and isinstance(tgt.slice.value, str):
                 t, ty = self.expr(s.value)
@@ -1050,6 +1067,28 @@ class _Fn:
             tv = self._lower_bool(v, depth + 1, where)
             self.emit(depth + 1, f"{tmp} := {tv}")
         return tmp
+
+    def _unpack_list(self, names, t, ty, depth, top, where):
+        """`a, b = <list of strings>`: the names get the elements, any other length raises"""
+        if ty != "slist" or self.spec.unpack_error is None or not self.spec.monadic or self.lam \
+                or len(set(names)) != len(names) or len(names) < 2:
+            raise Unsupported(f"{where}: tuple assignment `{', '.join(names)} = …` from a {ty} (only from a list of "
+                              "strings, in a function that declares the error of a wrong length)")
+        for n in names:
+            if n in self.loopvars or any(n in sc for sc in self.scopes) or n in self.spec.params:
+                raise Unsupported(f"{where}: tuple assignment to {n!r}")
+            if n not in self.locals:
+                self._store(n, '""', "str", depth, top, where)
+            elif self.locals[n] != "str":
+                raise Unsupported(f"{where}: {n!r} changes its type from {self.locals[n]} to str")
+        self.ntmp += 1
+        parts = [f"pyPart{self.ntmp}_{i + 1}" for i in range(len(names))]
+        self.emit(depth, f"match {t} with")
+        self.emit(depth, f"| [{', '.join(parts)}] =>")
+        for n, q in zip(names, parts):
+            self.emit(depth + 1, f"{lean_ident(n)} := {q}")
+        self.emit(depth, f"| _ => throw {self.spec.unpack_error}")
+        return False
 
     def _unpack(self, names, value, top, where):
         """`a, b = <opaque>` at the top level: `a` / `b` stand for `<opaque>[0]` / `<opaque>[1]` inside atoms"""
@@ -1873,11 +1912,44 @@ def _transfer_specs():
             ("upload_link", upload_link)]
 
 
+
+_T_DISPATCH_PRELUDE = [
+    "/-- `hosts, path = pool_path.split(\":\")` on the model's own splitter -/",
+    "def splitColonStr (s : String) : List String := (splitColon s.toList).map String.ofList",
+    "/-- `s.replace(c, \"\")` -/",
+    "def pyRemoveChar (c : Char) (s : String) : String := String.ofList (s.toList.filter (· != c))",
+    "/-- `cls.<op>_remote(...)`: remote transfers are outside the model -/",
+    "def remoteM : M Unit := throw Err.notModelled",
+]
+
+
+def _dispatch_spec(op, first=False):
+    """`TransferOps.download / upload / delete`: the choice between remote, link and local mode"""
+    two = op != "delete"
+    args = "_1, _2, _3" if two else "_1, _2"
+    types = ["str", "str", "_"] if two else ["str", "_"]
+    fill = "{1} {2}" if two else "{1}"
+    gen = {"download": ("genDownloadLink", "genDownloadLocal"), "upload": ("genUploadLink", "genUploadLocal"),
+           "delete": ("genDeleteLocal", "genDeleteLocal")}[op]
+    calls = {f"cls.{op}_remote({args})": ("remoteM", "unit", "action", types),
+             f"cls.{op}_link({args})": (f"{gen[0]} {fill}", "unit", "action", types),
+             f"cls.{op}_local({args})": (f"{gen[1]} {fill}", "unit", "action", types)}
+    params = dict(_T_PARAMS) if two else {"pool_path": ("pool", "str"), "params": None}
+    return Spec("gen" + op.capitalize(), _T_BINDERS if two else [("pool", "Path")], params, ret="unit", monad="M",
+                atoms={"pool_path.split(':')": ("(splitColonStr pool)", "slist")}, calls=calls,
+                prims={"substr": "I2N.Rules.isSubstr"}, unpack_error="Err.valueError",
+                prelude=_T_DISPATCH_PRELUDE if first else (),
+                doc=f"`TransferOps.{op}`: `hosts:path`, a `;` in the path selects link mode (here `pool` is the whole "
+                    "location string)")
+
+
 def transfer_source(path=None):
     path = path or _src("PYGEN_POOL_SRC", "avocado_i2n/states/pool.py")
     defs = [generate(path, "TransferOps." + name, spec) for name, spec in _transfer_specs()]
+    defs += [generate(path, "TransferOps." + op, _dispatch_spec(op, first=(op == "download")))
+             for op in ("download", "upload", "delete")]
     return render_file("harness/pygen.py:extract_transfer (called by harness/props/c14.py:extract) from "
-                       "avocado_i2n/states/pool.py", ["I2N.Model.Transfer"], "I2N.Extracted.GenTransfer",
+                       "avocado_i2n/states/pool.py", ["I2N.Model.Transfer", "I2N.Model.Rules"], "I2N.Extracted.GenTransfer",
                        ["I2N.Transfer"], defs)
 
 
